@@ -17,8 +17,9 @@ EndOf(a) == IF a.le THEN "LE" ELSE "BE"
 ValsOf(a) == IF Has(a, "count") /\ a.count > 0 THEN Rep(a.elem, a.count) ELSE a.vals
 TextOf(a) == IF Has(a, "runs") THEN Expand(a.runs) ELSE a.s
 
-EkWidth(ek) == CASE ek \in {"i8", "u8"} -> 1 [] ek \in {"i16", "u16"} -> 2
-                 [] ek \in {"i32", "u32", "f32"} -> 4 [] ek \in {"i64", "u64", "f64"} -> 8
+(* "du16" ... are DEFINED Go types over uint16 ... (admitted by the ~ constraints): same rendering *)
+EkWidth(ek) == CASE ek \in {"i8", "u8"} -> 1 [] ek \in {"i16", "u16", "du16"} -> 2
+                 [] ek \in {"i32", "u32", "f32", "di32", "du32"} -> 4 [] ek \in {"i64", "u64", "f64", "di64", "df64"} -> 8
 
 PlainPad == 32   \* WriteFixedString / ReadFixedString: space, right
 
